@@ -285,7 +285,8 @@ def execute(plan):
             for c in v["clock"]:
                 clock_lo = c if clock_lo is None else min(clock_lo, c)
                 clock_hi = c if clock_hi is None else max(clock_hi, c)
-        digests.append({k: (runner.sha(v) if v is not None else None) for k, v in sorted(norm.items())})
+        # the run hash must not depend on the scratch path even when a defect leaks it into an output
+        digests.append({k: (runner.sha(v.replace(root.encode(), b"$W")) if v is not None else None) for k, v in sorted(norm.items())})
         if xi == 0:
             ref = norm
             ref_raw = outputs
